@@ -60,7 +60,14 @@ def h_pairs(ctx, a, others):
     for b in others:
         specb, clsb, cb = _build(ctx, b, "b_", symbolic=False)
         # use the other command: encode / decode with its class
-        clsb.marshall_cdb(clsb.unmarshall_cdb(cb.cdb))
+        own = clsb.unmarshall_cdb(cb.cdb)
+        clsb.marshall_cdb(own)
+        if len(cb.cdb) == len(ca.cdb) and clsb is not cls:
+            # the other class decodes the very bytes this command's class has decoded before: what it returns is
+            # its own layout's view (its own field names), not an earlier answer for the same bytes
+            cross = clsb.unmarshall_cdb(ca.cdb)
+            ctx.check("decoding the same bytes with %s yields that class's own fields" % b,
+                      set(cross.keys()) == set(own.keys()), "%s vs %s" % (sorted(cross.keys()), sorted(own.keys())))
         _same_obs(ctx, "after creating and using %s" % b, _observe(cls, ca, probe), solo)
         del cb
     # a construction that fails half-way (an argument the encoder cannot take) must not disturb existing commands
